@@ -91,7 +91,32 @@ func c05(c *Ctx) {
 		N: 2,
 		Instr: func(ins ssa.Instruction) []ir.Mask {
 			cc, ok := ins.(ssa.CallInstruction)
-			if !ok || !isFanInvoke(cc, "SetPwmEnabled") {
+			if !ok {
+				return nil
+			}
+			// a helper that always sets the mode it is given, called with the manual mode
+			if h := ir.Callee(cc).Static; h != nil && !cc.Common().IsInvoke() && load_FuncPkgPath(h) == PkgCtrl && len(h.Blocks) > 0 && len(h.Blocks) <= 12 {
+				for i, a := range cc.Common().Args {
+					k, isConst := ir.ConstInt(a)
+					if !isConst || k != 1 || i >= len(h.Params) {
+						continue
+					}
+					p := h.Params[i]
+					missed := false
+					ir.Search{StopInstr: func(i2 ssa.Instruction) bool {
+						c2, ok := i2.(ssa.CallInstruction)
+						return ok && isFanInvoke(c2, "SetPwmEnabled") && ir.Resolve(c2.Common().Args[0]) == ssa.Value(p)
+					}}.Reach([]ir.Point{{Block: h.Blocks[0], Idx: 0}}, func(i2 ssa.Instruction, _ *ssa.BasicBlock) {
+						if _, isRet := i2.(*ssa.Return); isRet {
+							missed = true
+						}
+					})
+					if !missed {
+						return ir.AllTo(2, stYes)
+					}
+				}
+			}
+			if !isFanInvoke(cc, "SetPwmEnabled") {
 				return nil
 			}
 			if k, isConst := ir.ConstInt(cc.Common().Args[0]); isConst && k == 1 {
